@@ -520,7 +520,7 @@ class BlackbirdProgram:
                     elif isinstance(v, str):
                         # argument is a string type; if a p-type parameter (e.g. p0),
                         # then simply add it as is
-                        if self.programtype["name"] == "tdm" and v[:1] == "p" and v[1:].isdigit() and v in self._var:
+                        if self.programtype["name"] == "tdm" and v[:1] == "p" and v[1:].isdigit() and isinstance(self._var.get(v), np.ndarray):
                             args.append(v)
                         else:
                             args.append('"{}"'.format(v))
@@ -561,7 +561,7 @@ class BlackbirdProgram:
                     elif isinstance(v, str):
                         # kwarg is a string type; if a p-type parameter (e.g. p0),
                         # then simply add it as is
-                        if self.programtype["name"] == "tdm" and v[:1] == "p" and v[1:].isdigit() and v in self._var:
+                        if self.programtype["name"] == "tdm" and v[:1] == "p" and v[1:].isdigit() and isinstance(self._var.get(v), np.ndarray):
                             kwargs.append("{}={}".format(k, v))
                         else:
                             kwargs.append('{}="{}"'.format(k, v))
